@@ -16,6 +16,7 @@ Decided:
 Not decided: `builds <=> parses` as behaviour over all builder states."""
 from ..facts import callee_name as facts_callee
 from .. import sym, lift, setalg
+from .. import cfg as cfgmod
 from . import gate as gatemod
 from .movegen import SELF, PIECE, COLOR
 from .common import B, loc, transitive_field_access
@@ -168,6 +169,22 @@ def run(ctx):
     rights_writers = [w for w, r in g.wrole.items() if r == "castling"]
     users = [k for k in reachable_bodies(f, [BUILDER + "::build"]) if k.startswith(BUILDER + "::")
              and any(facts_callee(t_) in rights_writers for _, t_ in f.bodies[k].calls())]
+    # a helper that only does the writing for a stage is read as part of that stage (its values are its caller's)
+    reach_ = [k for k in reachable_bodies(f, [BUILDER + "::build"]) if k.startswith(BUILDER + "::")]
+    from .common import local_callees
+    callers_ = {}
+    for k in reach_:
+        for cn in local_callees(f, f.bodies[k]):
+            callers_.setdefault(cn, set()).add(k)
+    for _ in range(3):
+        lifted_ = []
+        for k in users:
+            cs = callers_.get(k, set()) - {k}
+            if cs and BUILDER + "::build" not in cs and not cfgmod.natural_loops(f.bodies[k]):
+                lifted_ += sorted(cs)
+            else:
+                lifted_.append(k)
+        users = sorted(set(lifted_))
     nslot = 0
     for k in users:
         ub = f.bodies[k]
@@ -207,20 +224,52 @@ def run(ctx):
                   "the builder does not install both wings for every colour (%s)" % sorted(per_colour), loc(ub))
     ctx.floor("castle-right installations in the builder", nslot, 2)
     ctx.rule("ep-rank-guard")
+    # decided as a function: for which (side to move, rank of the given square) does the stage store the square's file?
+    # Both constructors must store it exactly for (White, 6th) and (Black, 3rd) -- the rank is not kept, so any other
+    # accepted pair is read back as a different square.  Conditions about anything else (the text parses, the validator
+    # agrees) are left open.
+    from ..evalx import enum_index
+
+    class _Open(Exception):
+        pass
+
+    def ev_sr(e, stm, r):
+        k = e[0]
+        if k == "get" and e[1] == "side_to_move":
+            return stm
+        if k == "rank" and len(e) == 2 and isinstance(e[1], tuple):
+            return r
+        if k == "relrank":
+            return e[1] if ev_sr(e[2], stm, r) == 0 else 7 - e[1]
+        if k in ("discr", "deref", "ref"):
+            return ev_sr(e[1], stm, r)
+        if k == "enum":
+            return enum_index(e)
+        if k == "int":
+            return e[1]
+        if k == "bin" and e[1] in ("Eq", "Ne", "Lt", "Le", "Gt", "Ge"):
+            a, b = ev_sr(e[2], stm, r), ev_sr(e[3], stm, r)
+            return int({"Eq": a == b, "Ne": a != b, "Lt": a < b, "Le": a <= b, "Gt": a > b, "Ge": a >= b}[e[1]])
+        if k == "not":
+            return 1 - ev_sr(e[1], stm, r)
+        raise _Open()
+
+    def holds(c, stm, r):
+        try:
+            v = ev_sr(L.lift(c[0]), stm, r)
+        except _Open:
+            return True
+        return v == c[1] if isinstance(c[1], int) else v not in c[1][1]
     guards = {}
     for name, tag in ((g.stage_for(BUILDER + "::build", "ep"), "builder"), (g.stage_for(B + "::from_fen", "ep"), "parser")):
         b0 = f.need(name)
-        ps = sym.SymExec(f, b0, inline=lambda n: False if g.validator_role(n) is not None else None).run()
-        found = set()
-        for p in ps:
-            if g.path_fails(name, p) and p.conds:
-                e = L.lift(p.conds[-1][0])
-                rr = sym.subterms(e, lambda x: x[0] == "relrank")
-                if e[0] == "bin" and e[1] in ("Eq", "Ne") and rr:
-                    found.add((rr[0][1], sym.show(rr[0][2])[:40].replace("*board", "*").replace("*self", "*")))
-        guards[tag] = found
-    ctx.check(guards["builder"] == guards["parser"] and len(guards["builder"]) == 1, "ep-rank-guard-agrees",
-              "the en-passant square rank guard differs between builder and parser: %s" % guards, sample={"guard": sorted(guards["builder"])})
+        ps = sym.SymExec(f, b0, inline=lambda n: False if (g.validator_role(n) is not None or n in g.W) else None).run()
+        storing = [p for p in ps if any(e.kind == "call" and g.wrole.get(e.name) == "ep" and e.args[1][0] == "agg" and e.args[1][2] == "Some" for e in p.events)]
+        guards[tag] = {(("White", "Black")[stm], r + 1) for stm in (0, 1) for r in range(8) if any(all(holds(c, stm, r) for c in p.conds) for p in storing)}
+    CANON = {("White", 6), ("Black", 3)}
+    ctx.check(guards["builder"] == guards["parser"] == CANON, "ep-rank-guard-agrees",
+              "the en-passant square is stored for (side to move, rank) in %s by the builder and %s by the parser; expected %s in both"
+              % (sorted(guards["builder"]), sorted(guards["parser"]), sorted(CANON)), sample={"stored for": sorted(CANON)})
     # a stage may refuse its field for what the field says (text that does not parse, a value out of range), for what
     # its validator says, and -- like the en-passant rank above -- for how the field sits with another part of the
     # position.  Refusals of the last kind must exist on both sides alike: a parser stage that also looks at another
@@ -246,7 +295,10 @@ def run(ctx):
                     continue
                 # the decisions the refusal rests on: those taken after the last call or assignment of the path (one
                 # compound condition, `a && b`, is a run of decisions with nothing in between)
-                k0 = max([e_.ncond for e_ in p0.events] + [0])
+                # (only events with an effect on the board count: a writer or a validator; getters, `?` plumbing and the
+                # markers of inlined helpers do not separate decisions)
+                k0 = max([e_.ncond for e_ in p0.events if e_.kind in ("call", "inlined") and
+                          (e_.name in g.W or g.wrole.get(e_.name) is not None or g.validator_role(e_.name) is not None)] + [0])
                 trail = p0.conds[k0:] or p0.conds[-1:]
                 reads = set()
                 skip = False
